@@ -181,7 +181,7 @@ def write_results(network, num_periods, periods_to_print=None, columns_to_print=
 			if 'IS'		in cols_to_print: temp += sort_nested_dict_by_keys(node.state_vars[t].inbound_shipment) 
 			if 'ISPL'	in cols_to_print: temp += ISPL
 			if 'IDI'	in cols_to_print: temp += sort_nested_dict_by_keys(node.state_vars[t].inbound_disrupted_items) 
-			if 'RM'		in cols_to_print: temp += sort_dict_by_keys(node.state_vars[t].raw_material_inventory) 
+			if 'RM'		in cols_to_print: temp += sort_dict_by_keys(_rm_dict_for_printing(network, node, node.state_vars[t].raw_material_inventory, suppress_dummy_products))
 			if 'PFG'	in cols_to_print: temp += sort_dict_by_keys(node.state_vars[t].pending_finished_goods) 
 			if 'OS'		in cols_to_print: temp += sort_nested_dict_by_keys(node.state_vars[t].outbound_shipment) 
 			if 'DMFS'	in cols_to_print: temp += sort_dict_by_keys(node.state_vars[t].demand_met_from_stock)
@@ -213,17 +213,8 @@ def write_results(network, num_periods, periods_to_print=None, columns_to_print=
 		if 'ISPL' 	in cols_to_print: headers += _nested_dict_to_header_list(node.state_vars[0].inbound_shipment_pipeline, "ISPL", omit_negative_keys=suppress_dummy_products)
 		if 'IDI' 	in cols_to_print: headers += _nested_dict_to_header_list(node.state_vars[0].inbound_disrupted_items, "IDI", omit_negative_keys=suppress_dummy_products)
 		if 'RM' 	in cols_to_print: 
-			# If suppress_dummy_products, use predecessor indices instead of product indices.
-			if suppress_dummy_products:
-				temp_dict = {}
-				for k, v in node.state_vars[0].raw_material_inventory.items():
-					if network.products_by_index[k].is_dummy: 
-						temp_dict[node.raw_material_suppliers_by_raw_material(raw_material=k, return_indices=True)[0]] = v
-					else:
-						temp_dict[k] = v
-				# temp_dict = {node.raw_material_suppliers_by_raw_material(raw_material=k, return_indices=True)[0]: v for k, v in node.state_vars[0].raw_material_inventory.items()}
-			else:
-				temp_dict = node.state_vars[0].raw_material_inventory
+			# If suppress_dummy_products, use predecessor indices instead of product indices (same keys as the data rows).
+			temp_dict = _rm_dict_for_printing(network, node, node.state_vars[0].raw_material_inventory, suppress_dummy_products)
 			headers += _dict_to_header_list(temp_dict, "RM")
 		if 'PFG' 	in cols_to_print: headers += _dict_to_header_list(node.state_vars[0].pending_finished_goods, "PFG", omit_negative_keys=suppress_dummy_products)
 		if 'OS' 	in cols_to_print: headers += _nested_dict_to_header_list(node.state_vars[0].outbound_shipment, "OS", omit_negative_keys=suppress_dummy_products)
@@ -265,6 +256,23 @@ def write_results(network, num_periods, periods_to_print=None, columns_to_print=
 			writer.writerow(headers)
 			for r in results:
 				writer.writerow(r)
+
+
+def _rm_dict_for_printing(network, node, rm_dict, suppress_dummy_products):
+	"""Return the raw-material-keyed dict ``rm_dict`` (a state variable of ``node``) keyed the way
+	the RM columns are labeled: if ``suppress_dummy_products`` is ``True``, a dummy raw material is replaced
+	by the index of the predecessor that supplies it. Used for both the column headers and the data rows, so
+	that they are sorted consistently.
+	"""
+	if not suppress_dummy_products:
+		return rm_dict
+	temp_dict = {}
+	for k, v in rm_dict.items():
+		if network.products_by_index[k].is_dummy: 
+			temp_dict[node.raw_material_suppliers_by_raw_material(raw_material=k, return_indices=True)[0]] = v
+		else:
+			temp_dict[k] = v
+	return temp_dict
 
 
 def _dict_to_header_list(d, abbrev, omit_negative_keys=False):
